@@ -129,6 +129,9 @@ def gen(rng, tier):
     dg0 = "0x" + "%064x" % rng.getrandbits(256)
     for v in perturb(dg0, "0x"):
         add("cli.sign_raw %s %s default %s" % (mn0, pw0, hx(v)), ("sign_raw", "perturbed-digest"), nt=False)
+    from vlib.core import substitute
+    for v in rng.sample([t for t in substitute(dg0, 2) if "\x00" not in t], 40):
+        add("cli.sign_raw %s %s default %s" % (mn0, pw0, hx(v)), ("sign_raw", "substituted-digest"), nt=False)
     for bad in ["", "0x", "00", "0x" + "00" * 31, "0x" + "00" * 33, "zz" * 32, " " + "00" * 32, "0X" + "00" * 32]:
         mn, pw, sel = rand_acct(rng)
         add("cli.sign_raw %s %s %s %s" % (mn, pw, sel, hx(bad)), ("sign_raw", "bad-digest"), nt=False)
